@@ -9,7 +9,7 @@ VERIF_KNOWN=${KNOWN:-} VERIF_PROP=$1 VERIF_SEED=${3:-1} VERIF_RUNS=${2:-50} VERI
 python3 - <<'PY'
 import json,glob
 d=json.load(open('/tmp/vout/w0.json'))
-for k in ['runs','wall_s','sim_ns','steps','faults','probes','violations','bubble_leaks','leak_msgs']: print(k,d.get(k))
+for k in ['runs','wall_s','sim_s','steps','faults','probes','violations','bubble_leaks','leak_msgs']: print(k,d.get(k))
 print('sched',len(d['sched_hashes']),'state',len(d['state_hashes']),'nontriv',len(d['nontrivial_hashes']))
 for f in (d["violations"] or []):
     r=json.load(open(f))
